@@ -35,6 +35,21 @@ class MapVec:
         self.items = [MapObj() for _ in range(n)]
 
 
+class SetObj:
+    """std::set<int>: ordered, unique; iteration ascending and valid under insertion"""
+
+    def __init__(self):
+        self.s = set()
+
+    def __repr__(self):
+        return "Set(%s)" % sorted(self.s)
+
+
+class SetVec:
+    def __init__(self, n):
+        self.items = [SetObj() for _ in range(n)]
+
+
 class MapIter:
     def __init__(self, m, key):
         self.m = m
@@ -46,7 +61,7 @@ class Aborts(Exception):
 
 
 class LUDomain(opsdom.OpsDomain):
-    """OpsDomain + std::unordered_map<int,double>, std::vector of maps, growing std::vectors"""
+    """OpsDomain + std::unordered_map<int,double>, std::set<int>, std::vector of maps / sets, growing std::vectors"""
 
     def __init__(self, prog, reverse_iteration=False):
         opsdom.OpsDomain.__init__(self, prog, record=False)
@@ -67,6 +82,24 @@ class LUDomain(opsdom.OpsDomain):
     def range_for(self, s, fr):
         it = self.interp
         rng = it.rvalue(s["range"], fr)
+        if isinstance(rng, SetObj):
+            # ascending order; an element inserted during the loop is visited iff it is larger than the current one
+            from gmg.interp import BreakEx, ContinueEx
+            v = s["var"]
+            last = None
+            while True:
+                nxt = sorted(x for x in rng.s if last is None or x > last)
+                if not nxt:
+                    break
+                last = nxt[0]
+                fr.vars[v["id"]] = Cell(last, v["name"])
+                try:
+                    it.exec(s["body"], fr)
+                except BreakEx:
+                    break
+                except ContinueEx:
+                    pass
+            return
         if not isinstance(rng, MapObj):
             raise ir.AnalysisBroken("range-for over %r at %s" % (rng, ir.locstr(s)))
         keys = list(rng.d.keys())
@@ -173,12 +206,24 @@ class LUDomain(opsdom.OpsDomain):
             if t.startswith("std::vector<std::unordered_map<int, double>"):
                 n = it.rvalue(args[0], fr)
                 return MapVec(n)
+            if t.startswith("std::set<int") and not args:
+                return SetObj()
+            if t.startswith("std::vector<std::set<int"):
+                n = it.rvalue(args[0], fr)
+                return SetVec(n)
             if t.startswith("std::__detail::_Node_iterator") or t.startswith("std::__detail::_Node_const_iterator"):
                 return it.rvalue(args[0], fr)
         if k == "OpCall" and e["op"] == "[]" and len(args) == 2:
             b = it.rvalue(args[0], fr)
-            if isinstance(b, MapVec):
-                return b.items[it.rvalue(args[1], fr)]
+            if isinstance(b, (MapVec, SetVec)):
+                i_ = it.rvalue(args[1], fr)
+                if not (0 <= i_ < len(b.items)):
+                    conc_oob = ("vector of %s" % ("maps" if isinstance(b, MapVec) else "sets"), i_, len(b.items), ir.locstr(e))
+                    self.oob.append(conc_oob)
+                    from gmg import conc as _conc
+                    _conc.GLOBAL_OOB.append(conc_oob)
+                    raise ir.AnalysisBroken("index %s into a vector of %d containers at %s" % (i_, len(b.items), ir.locstr(e)))
+                return b.items[i_]
             if isinstance(b, MapObj):
                 key = it.rvalue(args[1], fr)
                 if key not in b.d:
@@ -230,6 +275,25 @@ class LUDomain(opsdom.OpsDomain):
                     if key not in th.d:
                         th.d[key] = Cell(v, "map[%s]" % key)
                     return None
+            if isinstance(th, SetObj):
+                if m in ("insert", "emplace") and len(args) == 1:
+                    th.s.add(it.rvalue(args[0], fr))
+                    return None
+                if m == "erase" and len(args) == 1:
+                    k_ = it.rvalue(args[0], fr)
+                    had = k_ in th.s
+                    th.s.discard(k_)
+                    return 1 if had else 0
+                if m == "clear":
+                    th.s.clear()
+                    return None
+                if m == "size":
+                    return len(th.s)
+                if m == "empty":
+                    return not th.s
+                if m in ("count", "contains"):
+                    k_ = it.rvalue(args[0], fr)
+                    return (1 if k_ in th.s else 0) if m == "count" else (k_ in th.s)
             if isinstance(th, Arr) and base.startswith("std::vector::"):
                 if m == "clear":
                     th.length = 0
